@@ -90,6 +90,7 @@ async function checkPrologue (job, resp, dm, push) {
   }
   // pre-installed hook object must survive
   const c = await run(content, { hooks: 'record' })
+  if (c.timedOut) return { inconclusive: true } // wall clock decides nothing: a watchdog firing on a loaded machine is not a verdict
   const still = vm.runInContext('_ddiast', c.ctx)
   if (c.ctx._ddiast === undefined || still === undefined) push('prologue-overwrote', 'pre-installed _ddiast missing after the run')
   else if (c.hookCalls.length === 0 && b.log.length === c.log.length && resp.ok.metrics.instrumentedPropagation > 0 && !/^throw/.test(c.completion) && a.log.length > 3) {
